@@ -366,6 +366,22 @@ func Transcript(trace bool) []string {
 	r.Clean()
 	add("OPTIONS * after Clean", mon.Do(r, mon.Req{Method: "OPTIONS", Path: "*"}))
 	routes("after Clean")
+	// parameter kinds: the same names, rules and literals other instances may have used in another spelling
+	r.Handle("/rx/{id:\\d+}/x", env.NewHnd(mon.KRoute, "/rx/{id:\\d+}/x"), nil, "GET")
+	r.Handle("/ig/{-id:\\d+}/x", env.NewHnd(mon.KRoute, "/ig/{-id:\\d+}/x"), nil, "GET")
+	r.Handle("/nm/{name}/{-skip}/e", env.NewHnd(mon.KRoute, "/nm/{name}/{-skip}/e"), nil, "GET")
+	r.Handle("/w/{w:[a-z]+}.html", env.NewHnd(mon.KRoute, "/w/{w:[a-z]+}.html"), nil, "GET")
+	add("GET /rx/5/x", mon.Do(r, mon.Req{Method: "GET", Path: "/rx/5/x"}))
+	add("GET /rx/a/x", mon.Do(r, mon.Req{Method: "GET", Path: "/rx/a/x"}))
+	add("GET /ig/5/x", mon.Do(r, mon.Req{Method: "GET", Path: "/ig/5/x"}))
+	add("GET /nm/a/b/e", mon.Do(r, mon.Req{Method: "GET", Path: "/nm/a/b/e"}))
+	add("GET /w/abc.html", mon.Do(r, mon.Req{Method: "GET", Path: "/w/abc.html"}))
+	add("GET /w/ABC.html", mon.Do(r, mon.Req{Method: "GET", Path: "/w/ABC.html"}))
+	hs := mux.NewHosts(false, "{sub:[a-z]+}.example.com", "{-n:\\d+}.x.org", "static.example.org")
+	for _, h := range []string{"abc.example.com", "ABC.example.com:80", "7.x.org", "x.x.org", "static.example.org", "other"} {
+		ok, ps, pan := matchHost(hs, h)
+		t = append(t, fmt.Sprintf("Hosts.Match(%q): %v %s %v", h, ok, fmtParams(ps), pan))
+	}
 	return t
 }
 
@@ -423,6 +439,21 @@ var Scripts = map[string]func(r *ref.R){
 		mon.Do(g, mon.Req{Method: "OPTIONS", Path: "/y"})
 		g.Remove("a")
 	},
+	"other-spellings": func(r *ref.R) {
+		env := mon.NewEnv()
+		rt := env.NewRouter("other")
+		// the '-' form where the transcript captures and vice versa; the same rules with other names
+		rt.Handle("/rx/{-id:\\d+}/x", env.NewHnd(mon.KRoute, ""), nil, "GET")
+		rt.Handle("/ig/{id:\\d+}/x", env.NewHnd(mon.KRoute, ""), nil, "GET")
+		rt.Handle("/nm/{-name}/{skip}/e", env.NewHnd(mon.KRoute, ""), nil, "GET")
+		rt.Handle("/w/{-w:[a-z]+}.html", env.NewHnd(mon.KRoute, ""), nil, "GET")
+		for _, p := range []string{"/rx/5/x", "/ig/5/x", "/nm/a/b/e", "/w/abc.html"} {
+			mon.Do(rt, mon.Req{Method: "GET", Path: p})
+		}
+		hs := mux.NewHosts(false, "{-sub:[a-z]+}.example.com", "{n:\\d+}.x.org")
+		matchHost(hs, "abc.example.com")
+		matchHost(hs, "7.x.org")
+	},
 	"panics-with-recovery": func(r *ref.R) {
 		env := mon.NewEnv()
 		rt := env.NewRouter("other", mux.WithRecovery(func(http.ResponseWriter, any) {}))
@@ -435,13 +466,21 @@ var Scripts = map[string]func(r *ref.R){
 	},
 }
 
-var ScriptNames = []string{"none", "router-all-methods", "router-trace", "hosts", "group", "panics-with-recovery"}
+var ScriptNames = []string{"none", "router-all-methods", "router-trace", "hosts", "group", "panics-with-recovery", "other-spellings"}
 
 // TranscriptMain is the body of the `transcript` subprocess: T0 on a fresh
 // process, then T_k after each script; all must be equal.
-func TranscriptMain(scripts []string, trace bool, seed uint64) int {
+func TranscriptMain(scripts []string, trace bool, seed uint64, first bool) int {
 	r := ref.NewR(seed)
 	out := map[string]any{}
+	if first { // unrelated activity comes first; the caller compares the transcript with one from an untouched process
+		for _, name := range scripts {
+			if f := Scripts[name]; f != nil {
+				f(r)
+			}
+		}
+		scripts = nil
+	}
 	t0 := Transcript(trace)
 	out["t0"] = t0
 	equal := true
@@ -495,6 +534,31 @@ func c07Independence(c *Ctx) {
 	}
 	c.Class("independence_case")
 	c.Nontrivial(fmt.Sprintf("ind|%v|%v", trace, scripts))
+	// the same scripts in another fresh process, this time BEFORE the first router is probed
+	cmd2 := exec.Command(self, "transcript", "-scripts", strings.Join(scripts, ","), fmt.Sprintf("-trace=%v", trace), "-seed", fmt.Sprint(r.U64()), "-first")
+	cmd2.Env = os.Environ()
+	if out2, err := cmd2.Output(); err == nil {
+		var res2 struct {
+			T0 []string `json:"t0"`
+		}
+		if json.Unmarshal(out2, &res2) == nil && len(res2.T0) > 0 {
+			c.Eval()
+			c.Class("independence_cross_process")
+			if strings.Join(res2.T0, "\n") != strings.Join(res.T0, "\n") {
+				var diff []string
+				for i := range res.T0 {
+					if i < len(res2.T0) && res.T0[i] != res2.T0[i] {
+						diff = append(diff, "untouched process: "+res.T0[i], "after activity:    "+res2.T0[i])
+					}
+				}
+				c.Violate("a brand-new router (or Hosts matcher) answers differently when unrelated instances were used before it in the process", map[string]any{"scripts": scripts, "trace": trace, "diff": diff})
+				return
+			}
+		}
+	} else {
+		c.Violate(fmt.Sprintf("transcript subprocess (-first) failed: %v", err), map[string]any{"scripts": scripts, "stdout": string(out2)})
+		return
+	}
 	if !res.Equal {
 		var diff []string
 		for i := range res.T0 {
